@@ -235,11 +235,16 @@ fn e2_body(c: &Case) -> Result<(), String> {
             after_accept_clean(&root, 0)?;
         },
         Case::ExecWhileAlive => {
+            let before: Vec<i32> = interpose::harness(|| interpose::proc_fds().into_iter().map(|(f, _)| f).collect());
             let (server, name) = IpcOneShotServer::<Msg>::new().map_err(|e| e.to_string())?;
             let tx = IpcSender::<Msg>::connect(name).map_err(|e| e.to_string())?;
             let out = interpose::harness(|| std::process::Command::new("/proc/self/exe").arg("--list-fds").output()).map_err(|e| e.to_string())?;
             let txt = String::from_utf8_lossy(&out.stdout).to_string();
-            let inherited: Vec<&str> = txt.lines().filter(|l| l.contains("socket:")).collect();
+            // (descriptors that were open before the server existed are not the library's)
+            let inherited: Vec<&str> = txt
+                .lines()
+                .filter(|l| l.contains("socket:") && !before.contains(&l.split(' ').next().and_then(|x| x.parse().ok()).unwrap_or(-1)))
+                .collect();
             if !inherited.is_empty() {
                 return Err(format!("[left-behind] an exec'ed child inherits rendezvous descriptors: {:?}", inherited));
             }
